@@ -129,6 +129,23 @@ func modelEquals(m *sk.Model, st map[string]map[string][]sk.Pt) string {
 	return ""
 }
 
+// c02OverwrittenExposed counts points of an in-flight delete seen with an older, overwritten value.
+var c02OverwrittenExposed int64
+
+// c02WasOverwritten: v was written at (key, field, t) earlier and overwritten since.
+func c02WasOverwritten(m *sk.Model, key, field string, t int64, v sk.Val) bool {
+	f := m.S[key][field]
+	if f == nil {
+		return false
+	}
+	for _, x := range f.Old[t] {
+		if x == v {
+			return true
+		}
+	}
+	return false
+}
+
 // crashRule decides an image: returns the effective model (what the shard now holds) or a diff.
 func crashRule(acked *sk.Model, series []seriesDef, inflight *opSpec, st map[string]map[string][]sk.Pt) (*sk.Model, string, string) {
 	d0 := modelEquals(acked, st)
@@ -165,6 +182,16 @@ func crashRule(acked *sk.Model, series []seriesDef, inflight *opSpec, st map[str
 							return nil, fmt.Sprintf("series=%q field=%s: acknowledged point %d:%s missing and not named by the in-flight delete; got=%s", key, f, want[wi].T, want[wi].V, sk.FmtPts(got)), ""
 						}
 						wi++
+					}
+					if wi < len(want) && want[wi].T == g.T && want[wi].V != g.V &&
+						named[key] && g.T >= inflight.Min && g.T <= inflight.Max && c02WasOverwritten(acked, key, f, g.T, g.V) {
+						// the delete tombstones file by file: a crash between two files can remove the
+						// newer version of a point it names and leave an older, overwritten one. The
+						// delete never returned, the value was written once: the statement allows it.
+						c02OverwrittenExposed++
+						eff.Put(key, f, g.T, g.V)
+						wi++
+						continue
 					}
 					if wi >= len(want) || want[wi].T != g.T || want[wi].V != g.V {
 						return nil, fmt.Sprintf("series=%q field=%s: point %d:%s was never acknowledged in this form; want=%s got=%s", key, f, g.T, g.V, sk.FmtPts(want), sk.FmtPts(got)), ""
@@ -503,6 +530,10 @@ func c02History(r *vkit.Run, caseNo int, rg *vkit.Rand, all bool) {
 		}
 	}
 	r.Event("ops", int64(len(c.hist)))
+	if c02OverwrittenExposed > 0 {
+		r.Event("inflight_delete_exposed_overwritten_value", c02OverwrittenExposed)
+		c02OverwrittenExposed = 0
+	}
 	r.Case(mustJSON(c.hist), kinds["write"] && images >= 10 && torn > 0)
 	if caseNo%5 == 0 && r.WantSample() {
 		r.Sample(map[string]any{"case": caseNo, "history": opStrings(c.hist), "images_checked": images, "torn_variants": torn, "hook_images": hookImgsN})
